@@ -84,6 +84,22 @@ def keyname(rnd):
     return "".join(rnd.choice(["a", "b", "[", "]", " ", "'", "k", "2"]) for _ in range(rnd.randint(1, 4))).strip() or "k"
 
 
+WRAPPED_SHAPES = [
+    "SELECT n, {lit} AS lit FROM `root.t` WHERE n >= 1",
+    "SELECT d.n, {lit} AS lit FROM (SELECT n FROM `root.t` WHERE n >= 1) d",
+    "WITH c AS (SELECT n FROM `root.t`) SELECT n, {lit} AS lit FROM c",
+    "WITH c AS (SELECT n FROM `root.t`), e AS (SELECT n FROM c WHERE n > 1) SELECT n FROM e",
+    "SELECT n FROM `root.t` UNION ALL SELECT n FROM `root.t` WHERE n > 1",
+    "SELECT n FROM `root.t` UNION SELECT n FROM `root.t` UNION ALL SELECT n FROM `root.t`",
+    "SELECT n, (SELECT COUNT(*) AS c FROM `<-root.t`) AS cnt FROM `root.t`",
+    "SELECT n FROM `root.t` WHERE n IN (SELECT n FROM `<-root.t` WHERE n > 1)",
+    "SELECT * FROM `root.t` a JOIN `root.t` b ON a.n = b.n",
+    "SELECT n, COUNT(*) AS c FROM `root.t` GROUP BY n",
+    "SELECT x.n FROM (SELECT y.n FROM (SELECT n FROM `root.t`) y) x ORDER BY x.n DESC LIMIT 2",
+    "SELECT `root.t[0].n` AS first, {lit} AS lit FROM dual",
+]
+
+
 def meta_cases(rnd, n):
     """(canonical request, alternative request) pairs that must give equal results"""
     pairs = []
@@ -134,7 +150,9 @@ def meta_cases(rnd, n):
                               {"op": "query", "doc": enc_val(doc), "sql": alt_sql_dq, "arr": True, "pg": True},
                               "arrays+pg"))
         else:
-            sql_root = "SELECT n, %s AS lit FROM `root.t` WHERE n >= 1" % sql_str(s)
+            # Wrapped(): the input is addressable under `root` in EVERY statement of the query (derived tables, CTE
+            # bodies, union branches, sub-queries), exactly as if the caller had passed {"root": input}
+            sql_root = rnd.choice(WRAPPED_SHAPES).replace("{lit}", sql_str(s))
             pairs.append(({"op": "query", "doc": enc_val({"root": doc}), "sql": sql_root},
                           {"op": "query", "doc": enc_val(doc), "sql": sql_root, "wrapped": True}, "wrapped"))
     return pairs
@@ -165,7 +183,13 @@ def explore(chk, rnd, tier):
         if ra.get("r") in ("panic", "crash", "hang") or rb.get("r") in ("panic", "crash", "hang"):
             chk.add_violation("meta-crash", {"canonical": ca, "alternative": cb, "ra": ra, "rb": rb})
             break
-        same = ra.get("r") == rb.get("r") and (ra.get("r") != "ok" or canon(dec_val(ra["v"])) == canon(dec_val(rb["v"])))
+        # joins and GROUP BY emit key groups in Go map order: compared as multisets
+        unordered = " JOIN " in ca["sql"] or "GROUP BY" in ca["sql"]
+        def same_rows(x, y):
+            if unordered and isinstance(x, list) and isinstance(y, list):
+                return sorted(canon(r) for r in x) == sorted(canon(r) for r in y)
+            return canon(x) == canon(y)
+        same = ra.get("r") == rb.get("r") and (ra.get("r") != "ok" or same_rows(dec_val(ra["v"]), dec_val(rb["v"])))
         if not same:
             chk.add_violation("spelling-changes-result", {"kind": tag, "canonical": ca, "alternative": cb,
                                                           "canonical_result": ra, "alternative_result": rb})
